@@ -34,6 +34,7 @@ from collada.common import DaeUnsupportedError
 from collada.common import E
 from collada.common import tag
 from collada.util import toUnitVec
+from collada.util import parseFloatArray
 from collada.util import _syncChildren
 from collada.xmlutil import etree as ElementTree
 
@@ -116,7 +117,7 @@ class TranslateTransform(Transform):
 
     @staticmethod
     def load(collada, node):
-        floats = numpy.fromstring(node.text, dtype=numpy.float32, sep=' ')
+        floats = parseFloatArray(node.text)
         if len(floats) != 3:
             raise DaeMalformedError("Translate node requires three float values")
         return TranslateTransform(floats[0], floats[1], floats[2], node)
@@ -169,7 +170,7 @@ class RotateTransform(Transform):
 
     @staticmethod
     def load(collada, node):
-        floats = numpy.fromstring(node.text, dtype=numpy.float32, sep=' ')
+        floats = parseFloatArray(node.text)
         if len(floats) != 4:
             raise DaeMalformedError("Rotate node requires four float values")
         return RotateTransform(floats[0], floats[1], floats[2], floats[3], node)
@@ -220,7 +221,7 @@ class ScaleTransform(Transform):
 
     @staticmethod
     def load(collada, node):
-        floats = numpy.fromstring(node.text, dtype=numpy.float32, sep=' ')
+        floats = parseFloatArray(node.text)
         if len(floats) != 3:
             raise DaeMalformedError("Scale node requires three float values")
         return ScaleTransform(floats[0], floats[1], floats[2], node)
@@ -264,7 +265,7 @@ class MatrixTransform(Transform):
 
     @staticmethod
     def load(collada, node):
-        floats = numpy.fromstring(node.text, dtype=numpy.float32, sep=' ')
+        floats = parseFloatArray(node.text)
         return MatrixTransform(floats, node)
 
     def save(self):
@@ -314,7 +315,7 @@ class LookAtTransform(Transform):
 
     @staticmethod
     def load(collada, node):
-        floats = numpy.fromstring(node.text, dtype=numpy.float32, sep=' ')
+        floats = parseFloatArray(node.text)
         if len(floats) != 9:
             raise DaeMalformedError("Lookat node requires 9 float values")
         return LookAtTransform(floats[0:3], floats[3:6], floats[6:9], node)
